@@ -337,10 +337,21 @@ func (s *Session) run(ctx context.Context) {
 				sessionSpan.AddEvent("Session.WantsSentOp")
 				s.sw.WantsSent(oper.keys)
 			case opBroadcast:
-				// Broadcast want-haves to all peers
-				opCtx, span := internal.StartSpan(ctx, "Session.BroadcastOp")
-				s.broadcast(opCtx, oper.keys)
-				span.End()
+				// Broadcast want-haves to all peers. The keys were collected
+				// by the sessionWantSender some time ago: drop those that
+				// have been received or canceled since, otherwise they are
+				// put back on the wantlist with nobody left to cancel them.
+				wants := make([]cid.Cid, 0, len(oper.keys))
+				for _, c := range oper.keys {
+					if s.sw.isWanted(c) {
+						wants = append(wants, c)
+					}
+				}
+				if len(wants) > 0 {
+					opCtx, span := internal.StartSpan(ctx, "Session.BroadcastOp")
+					s.broadcast(opCtx, wants)
+					span.End()
+				}
 			default:
 				panic("unhandled operation")
 			}
